@@ -54,7 +54,8 @@ func (req DepositRequest) Validate() error {
 	if err := req.AcceptedCoins.Validate(); err != nil {
 		return fmt.Errorf("invalid accepted coins: %w", err)
 	}
-	if len(req.AcceptedCoins) != 0 && len(req.AcceptedCoins) != 2 {
+	// a deposit into a single-sided ranged pool accepts only one of the two coins
+	if len(req.AcceptedCoins) > 2 {
 		return fmt.Errorf("wrong number of accepted coins: %d", len(req.AcceptedCoins))
 	}
 	for _, coin := range req.AcceptedCoins {
